@@ -19,6 +19,7 @@ func (r *Run) Do(op Op) {
 	}
 	r.step = r.nDo
 	r.nDo++
+	r.curOp = op
 	switch op.K {
 	case "Purge":
 		r.Purge(op.H)
